@@ -77,7 +77,7 @@ declare -A CHECKS=(
  [C17-update-accepts-negative-interval-for-growth-rate]="C17 C16 C14"
  [C12-redelegate-new-position-claims-validator-after-create]="C12 C13"
  [C11-supplyof-skips-net-when-weights-zero]="C11"
- [C05-sub-unit-reward-rounded-up]="C05 C12 C13"
+ [C05-sub-unit-reward-rounded-up]="C13 C05 C12"
  [C03-slash-redelegation-reduces-total-by-tokens]="C03"
  [C13-redelegate-settles-validator-not-existing-position]="C13"
  [C18-import-restarts-decay-clock]="C18"
